@@ -82,11 +82,19 @@ LocalProbes == {CAddSec(u, o) : u \in {CAddSec(S0, -1), S0, CAddSec(E0, -1), E0,
 AlgoRefines == (vPh = 2 /\ Interleaves(vSum) /\ ~Degenerate(vSum) /\ ~CoincidentSouth(vSum)) =>
   /\ \A u \in Probes : ATypeRefines(Z, u)
   /\ \A L \in LocalProbes : AFindRefines(Z, FieldsOf(L), 0)
+\* the hypotheses of the unbounded proof spec/proofs/RuleTree.tla hold for the concrete instants of Rule.tla:
+\* S(y), E(y) lie within W = one week of rule time + 26 h of offset of calendar year y, and years are at least 365 days long
+WMargin == 604799 + 93599
+NearOK == vPh = 2 =>
+  LET ny == NewYear nyNext == CNorm(Cycle, DBYTab[vY] + YearLen(IsLeap(vY)), 0) IN
+  /\ CLe(CAddSec(ny, -WMargin), S0) /\ CLe(S0, CAddSec(nyNext, WMargin))
+  /\ CLe(CAddSec(ny, -WMargin), E0) /\ CLe(E0, CAddSec(nyNext, WMargin))
+  /\ CLe(CAddSec(ny, 365 * 86400), nyNext)
 \* witnesses, each REQUIRED TO BE VIOLATED on a rule of the class: TLC reproduces the recorded findings at the specification level
 \* K2: without the exclusion the 12-leaf evaluator does not refine the period definition on a coincident-south rule
 W_K2 == (vPh = 2 /\ Interleaves(vSum) /\ ~Degenerate(vSum)) =>
            (\A u \in Probes : ATypeRefines(Z, u)) /\ (\A L \in LocalProbes : AFindRefines(Z, FieldsOf(L), 0))
 \* K1: on an accepted rule whose periods overlap the search's window walk returns an entry twice
 W_K1 == (vPh = 2 /\ ~Interleaves(vSum)) => \A L \in LocalProbes : LET list == AFind(Z, FieldsOf(L), 0) IN Len(list) = Cardinality(SeqToSet(list))
-Inv == DeclEqArith /\ PeriodLaws /\ LiteralConsistency /\ AlgoRefines /\ Emit
+Inv == DeclEqArith /\ PeriodLaws /\ LiteralConsistency /\ AlgoRefines /\ NearOK /\ Emit
 =============================================================================
